@@ -320,22 +320,12 @@ class _Range(Comparator, RichComparisonMixin):
         self.end_exclusive = end_exclusive
 
     def _get_start(self, names):
-        value = self._start
-        if isinstance(value, Name):
-            name = value.name
-            if name not in names:
-                raise NameError("No value passed in for name: %s" % name)
-            return names[name]
-        return value
+        # like any comparator value: names are late-bound, also inside
+        # lists and tuples
+        return self._get_value(names, self._start)
 
     def _get_end(self, names):
-        value = self._end
-        if isinstance(value, Name):
-            name = value.name
-            if name not in names:
-                raise NameError("No value passed in for name: %s" % name)
-            return names[name]
-        return value
+        return self._get_value(names, self._end)
 
     def __str__(self):
         s = [repr(self._start)]
